@@ -364,6 +364,17 @@ pub fn run(ctx: &mut crate::Ctx) {
             pair!("window.order_by", wsel({ let mut w = w0(); w.order_by(id(&a.a), Order::Desc); w }), wsel({ let mut w = w0(); w.order_by_expr(Expr::col(id(&a.a)).into(), Order::Desc); w }));
             pair!("window.clear_order_by", wsel({ let mut w = w0(); w.order_by(id(&a.a), Order::Desc).clear_order_by().order_by(id(&a.b), Order::Asc); w }), wsel({ let mut w = w0(); w.order_by(id(&a.b), Order::Asc); w }));
         }
+        // ---- rows accumulate whichever of the row-adding methods is called, in any mix
+        {
+            let base = || { let mut i = Query::insert(); i.into_table(id(&a.t)).columns([id(&a.a), id(&a.b)]); i };
+            let (r1, r2, r3) = ([a.e1.clone(), a.e2.clone()], [a.e2.clone(), a.e3.clone()], [a.e3.clone(), a.e1.clone()]);
+            let general = || { let mut i = base(); i.values_panic(r1.clone()).values_panic(r2.clone()).values_panic(r3.clone()); i };
+            pair!("insert.values_from_panic", { let mut i = base(); i.values_from_panic([r1.clone(), r2.clone(), r3.clone()]); i }, general());
+            pair!("insert.values_panic then values_from_panic", { let mut i = base(); i.values_panic(r1.clone()).values_from_panic([r2.clone(), r3.clone()]); i }, general());
+            pair!("insert.values_from_panic twice", { let mut i = base(); i.values_from_panic([r1.clone()]).values_from_panic([r2.clone(), r3.clone()]); i }, general());
+            pair!("insert.values_from_panic then values_panic", { let mut i = base(); i.values_from_panic([r1.clone(), r2.clone()]).values_panic(r3.clone()); i }, general());
+            pair!("insert.values then values_from_panic(empty)", { let mut i = base(); i.values_panic(r1.clone()).values_panic(r2.clone()).values_panic(r3.clone()).values_from_panic(Vec::<Vec<SimpleExpr>>::new()); i }, general());
+        }
         pair!("insert.values_panic", { let mut i = Query::insert(); i.into_table(id(&a.t)).columns([id(&a.a), id(&a.b)]).values_panic([a.e1.clone(), a.e2.clone()]); i }, { let mut i = Query::insert(); i.into_table(id(&a.t)).columns([id(&a.a), id(&a.b)]); i.values([a.e1.clone(), a.e2.clone()]).unwrap(); i });
         pair!("insert.returning_col", { let mut i = Query::insert(); i.into_table(id(&a.t)).columns([id(&a.a)]).values_panic([a.e1.clone()]).returning_col(id(&a.b)); i }, { let mut i = Query::insert(); i.into_table(id(&a.t)).columns([id(&a.a)]).values_panic([a.e1.clone()]).returning(Query::returning().column(id(&a.b))); i });
         pair!("insert.returning_all", { let mut i = Query::insert(); i.into_table(id(&a.t)).columns([id(&a.a)]).values_panic([a.e1.clone()]).returning_all(); i }, { let mut i = Query::insert(); i.into_table(id(&a.t)).columns([id(&a.a)]).values_panic([a.e1.clone()]).returning(Query::returning().all()); i });
